@@ -191,7 +191,7 @@ def second_pass(pid, name, rewrite, driver_args):
     return core.read_lines(d / "spec.txt") if ok else None
 
 def c03_streams(ctx):
-    n = 20000 if ctx["thorough"] else 2500
+    n = 30000 if ctx["thorough"] else 4000
     def prefix_sibling(c):
         # a probe is non-trivial when some ignore file's directory is a STRING prefix but not a component ancestor of it
         f = c.split("\t")
@@ -244,7 +244,7 @@ PLANS["C03"] = dict(
 )
 
 def c11_streams(ctx):
-    n = 20000 if ctx["thorough"] else 3000
+    n = 30000 if ctx["thorough"] else 5000
     def classify(c, obs):
         f = c.split("\t")
         k = [("filters" if f[2] else "no-filters"), ("ignores" if f[3] else "no-ignores"), ("exts" if f[6] else "no-exts"), ("whitelist" if f[4] else "no-whitelist")]
@@ -270,7 +270,7 @@ PLANS["C11"] = dict(
 )
 
 def c14_streams(ctx):
-    n = 6000 if ctx["thorough"] else 700
+    n = 8000 if ctx["thorough"] else 1000
     def classify(c, obs):
         f = c.split("\t")
         k = ["found=" + str(min(len([x for x in obs.split(";") if x]), 5)), ("watch-list" if f[2] else "no-watch-list"), ("explicit" if f[5] else "no-explicit")]
@@ -466,7 +466,7 @@ def job_oracles(script, trace):
     return out
 
 def job_stream(pid, ctx, n_random=None):
-    n_random = n_random or (40000 if ctx["thorough"] else 5000)
+    n_random = n_random or (60000 if ctx["thorough"] else 12000)
     s = core.StreamResult("job-sim")
     d = core.WORK / pid / "job-sim"; d.mkdir(parents=True, exist_ok=True)
     scripts = job_scripts(ctx["seed"], n_random, 3 if ctx["thorough"] else 2)
@@ -604,7 +604,7 @@ def fs_oracle(script, trace, conf):
     return None
 
 def c13_streams(ctx):
-    n = 30000 if ctx["thorough"] else 4000
+    n = 40000 if ctx["thorough"] else 8000
     s = core.StreamResult("fs-worker")
     d = core.WORK / ctx.get("pid13", "C13") / "fs-worker"; d.mkdir(parents=True, exist_ok=True)
     scripts = fs_scripts(ctx["seed"], n)
@@ -931,7 +931,7 @@ def quit_cases(seed, n):
     return out
 
 def c08_streams(ctx):
-    n = 12000 if ctx["thorough"] else 1500
+    n = 15000 if ctx["thorough"] else 3000
     s = core.StreamResult("quit-sim")
     d = core.WORK / "C08" / "quit-sim"; d.mkdir(parents=True, exist_ok=True)
     cases = quit_cases(ctx["seed"], n)
@@ -1142,7 +1142,7 @@ def c05_oracle(case, trace):
     return out
 
 def c05_streams(ctx):
-    n = 12000 if ctx["thorough"] else 1200
+    n = 15000 if ctx["thorough"] else 2500
     s = core.StreamResult("cli-action")
     d = core.WORK / "C05" / "cli-action"; d.mkdir(parents=True, exist_ok=True)
     cases = c05_cases(ctx["seed"], n)
